@@ -1,3 +1,4 @@
 pub mod dd;
 pub mod exq;
+pub mod rq;
 pub mod tracked;
